@@ -33,6 +33,14 @@ def pack_scripts(rng, n, noid=4):
             out.append(s)
     # deterministic family: one transaction undoes two earlier transactions of the same object (two records for the
     # oid in one transaction), a later undo points back into it, then a pack below / inside / above the chain
+    # deterministic family: an object that is garbage at the pack time is linked again by an undo after it and then
+    # changed by a further undo (two back pointers from the future to different old revisions of one object)
+    for sec in (4, 5):
+        for gc in (True, False):
+            s = sc.commit([(0, 'v1', (1,)), (1, 'v1', ())], clk=1) + sc.commit([(1, 'v1', (2,)), (2, 'v1', ())], clk=2)
+            s += sc.commit([(2, 'v2', ())], clk=3) + sc.commit([(1, 'v2', ())], clk=4)          # t4: 1 drops its reference to 2
+            s += sc.undo(-1, clk=5) + sc.undo(-3, clk=6) + sc.pack(sec, gc) + sc.reopen()
+            out.append(s)
     for sec in (1, 3, 4, 5):
         for gc in (True, False):
             for first in ((-1, -2),):
@@ -113,14 +121,32 @@ def run(ctx):
         cs = sd.consts(kind, **dict(big, MaxTxn=14, MaxRecs=5, MaxClock=8, RefSets='AllRefs'))
         behs = sc.evaluate(ctx, kind, scripts, cs)
         whole = [sc.complete(s_, b) for s_, b in zip(scripts, behs)]
-        if kind == 'file' and not all(whole[:14]):
+        if kind == 'file' and not all(whole[:18]):
             # (an entry that is not enabled in the model ends a script silently: the directed families must run through)
-            raise RuntimeError('directed pack scenarios were not evaluated to their end: %r' % [i for i, w in enumerate(whole[:14]) if not w])
-        res += S.replay_all(ctx, behs, kind, cs, opts={'sparse': False}, tag='scr')
+            raise RuntimeError('directed pack scenarios were not evaluated to their end: %r' % [i for i, w in enumerate(whole[:18]) if not w])
+        rs = S.replay_all(ctx, behs, kind, cs, opts={'sparse': False}, tag='scr')
+        res += rs
+        # the C07 relation evaluated by TLC at every pack step of every script (it is a property of the simulated and
+        # exhaustive runs; scripts carry the verdict with the call)
+        npk = 0
+        for s_, b, r_ in zip(scripts, behs, rs):
+            for st in b:
+                if st['action'] != 'Pack':
+                    continue
+                npk += 1
+                if sd.norm(st['state']['act']).get('packok') is False and r_['mismatch'] is None:
+                    ctx.violation({'kind': 'pack-relation', 'storage': kind, 'gc': bool(sd.norm(st['args'])[1])},
+                                  '%s storage: the pack %r of this history does not satisfy the C07 relation PackOK (the '
+                                  'specification is the transcription of the packer, which the real storage followed call by call: '
+                                  'it observably changes a snapshot at or after the pack time, or removes what it may not); calls: %s' % (
+                                      kind, tuple(sd.norm(st['args'])), ' '.join(x['action'] + repr(tuple(sd.norm(x['args']))) for x in b)[:900]),
+                                  replay={'script': s_})
+        cov.setdefault('pack_steps_judged_by_PackOK', {})[kind] = npk
         cov[kind] = S.judge(ctx, res, kind, focus=packed)
         cov[kind]['sample'] = res[0]['sig'][:30]
         cov[kind]['scripted'] = len(behs)
         cov[kind]['scripts_evaluated_to_the_end'] = sum(whole)
+    pkj = cov.pop('pack_steps_judged_by_PackOK', {})
     ev = sum(v['behaviours'] for v in cov.values())
     return ctx.finish({
         'evaluations': ev,
@@ -133,7 +159,7 @@ def run(ctx):
                 'undoing two transactions of the same object with a later undo pointing back into it) are replayed: the packed history (iterator) and every query at or after '
                 'the pack time must equal what the transcription yields; non-trivial = contains a pack and two commits',
         'traces_validated_against_impl': ev,
-        'per_storage': cov,
+        'per_storage': cov, 'pack_steps_judged_by_PackOK_in_scripts': pkj,
         'samples': [cov[k]['sample'] for k in cov],
         'exhaustive': False,
     }, ASSUME + ['pack times are whole-second boundaries (the API takes float seconds; transactions within one second '
